@@ -47,6 +47,11 @@ def gen(tier, seed):
         yield 'scrypt %s %s %d 1 1 %d' % (rng.data(rng.choice([0, 5, 70])) if n % 2 else rng.data(n), rng.data(n), rng.choice([1, 2]), rng.choice([16, 33, 64]))
         yield 'hkdf_extract %s %s %s' % (d, rng.data(n), rng.data((n * 7) % 141))
         yield 'hkdf_expand %s %s %s %d' % (d, rng.data(hl), rng.data(n), rng.choice([1, hl, 2 * hl + 1]))
+    # two derivations on one Mac object (the API takes `&mut Mac`): first output lengths that end on a partial / a whole block
+    for d, hl in (('sha256', 32), ('sha1', 20), ('sha512', 64), ('b2bmac:32', 32)):
+        for dk1 in (1, hl - 1, hl, hl + 1, 2 * hl, 2 * hl + 7):
+            pw = rng.data(rng.choice([1, 8, 32]))
+            yield 'pbkdf2_twice %s %s %s %d %d %s %d %d' % (d, pw, rng.data(8), rng.choice([1, 2, 3]), dk1, rng.data(rng.choice([0, 8, 16])), rng.choice([1, 2]), rng.choice([hl, hl + 3, 5]))
     # every output length: PBKDF2 dkLen 1..=200 (c = 1, 2), HKDF-Expand L 0..=300
     for n in range(1, 201):
         d = ('sha256', 'sha1', 'sha512')[n % 3]
@@ -119,6 +124,9 @@ def check(line, toks):
             exp = [hx(hashlib.pbkdf2_hmac(f[1], expand(f[2]), expand(f[3]), int(f[4]), int(f[5])))]
         else:
             exp = [hx(o.pbkdf2(f[1], expand(f[2]), expand(f[3]), int(f[4]), int(f[5])))]
+    elif op == 'pbkdf2_twice':
+        pw = expand(f[2])
+        exp = [hx(o.pbkdf2(f[1], pw, expand(f[3]), int(f[4]), int(f[5]))), hx(o.pbkdf2(f[1], pw, expand(f[6]), int(f[7]), int(f[8])))]
     elif op == 'scrypt_params':
         if toks != ['OK']:
             return [('C10:scrypt:admissible-parameters-refused', 'log2N=%s r=%s p=%s: %s' % (f[1], f[2], f[3], ' '.join(toks)[:60]))]
